@@ -971,7 +971,12 @@ class Parser:
         if self.accept('id'):
             return self.create_node(IdNode, t)
         if self.accept('number'):
-            return self.create_node(NumberNode, t)
+            try:
+                return self.create_node(NumberNode, t)
+            except ValueError:
+                # more digits than sys.get_int_max_str_digits() allows
+                raise ParseException('Integer literal is too large.',
+                                     self.lexer.getline(t.line_start), t.lineno, t.colno)
         if self.accept_any(ALL_STRINGS):
             try:
                 return self.create_node(StringNode, t)
